@@ -19,7 +19,7 @@ LEVEL_TEXT = ("Proof on the real AST of the server-side request handler for ever
               "application callback for this username returned SUCCESS', checked at each call site against ghost state "
               "recorded by the callback contracts; for publickey additionally a verify_ssh_sig that returned True over "
               "exactly the blob _get_session_blob builds, and that blob is proved to be string(session_id) || 50 || "
-              "string(user) || string(service) || 'publickey' || 1 || string(algorithm) || string(key bits).")
+              "string(user) || string(service) || 'publickey' || 1 || string(algorithm) || string(key bits). verify_ssh_sig may raise (SSHException, ValueError, anything): the handler must not turn that into a success.")
 LEVEL_NOTE = ("Assumed: ServerInterface callbacks return arbitrary values (recorded, never trusted); verify_ssh_sig is an "
               "uninterpreted predicate of (key, data, signature) - real signature checking is C35/C07; peer message fields "
               "are unconstrained values (reader contracts without cases). The interactive-response handler is not in the "
